@@ -49,6 +49,7 @@ int  dtdh_body(int rank, int task_id, int nparams, int64_t **ptrs);
  *      parsec_dtd_insert_task hit a window stop and executes other tasks before returning)
  *  11  a task of the DTD taskpool enters prepare_input (b = address of its task object, never hashed; PINS callback)
  *  12  a task of the DTD taskpool starts executing (b likewise; covers the runtime's own fake / flush tasks too)
+ *  13  a local copy of the communication engine is about to be held up (knob copy_stall)
  *  99  parsec_init failed
  * (the driver is also linked by tools/realrun, whose dtdh_event ignores what it does not know: new observations are
  *  new kinds of this callback, and dtd_shared_t keeps its layout: the findings/NAME.shared.bin files are dumps of it) */
